@@ -363,6 +363,75 @@ fn window_only(run: &Run, total: &mut Ctx) {
     total.merge(c);
 }
 
+/// (b) with both zeros (round 11): -0.0 and +0.0 compare equal, so a cached extreme can survive as "the same
+/// value" although the element it was copied from has left the window. The extreme that is reported is an element
+/// of the window: bit for bit the same whatever preceded the window.
+fn window_only_signed_zero(run: &Run, total: &mut Ctx) {
+    let name = "window-only-signed-zero";
+    let alpha_w: Vec<X> = vec![None, Some(-0.0), Some(0.0), Some(1.0)];
+    let alpha_a: Vec<X> = vec![Some(0.0), Some(-0.0), Some(-7.5), Some(2.0), None];
+    let wins = all_words_upto(alpha_w.len(), run.pick(3, 4));
+    let pres = all_words_upto(alpha_a.len(), run.pick(2, 3));
+    let bits = |c: &Cell| c.num().map(|v| v.to_bits());
+    let c = par_items(&wins, run.threads, |ww, ctx| {
+        let w = ww.len();
+        if w == 0 {
+            return;
+        }
+        let win = decode(ww, &alpha_w);
+        ctx.states += 1;
+        ctx.fam(name).states += 1;
+        ctx.nontrivial(name, hash_bytes(ww));
+        for f in [R1::Min, R1::Max] {
+            for mp in [0usize, 1] {
+                let base = match run_v1::<f64, f64>(f, &win, w, Some(mp), Path::Ret) {
+                    Some(Outcome::Ok(c)) => c,
+                    _ => continue,
+                };
+                let b_last = base.last().unwrap().clone();
+                // the extreme is an element of its window (bitwise)
+                let in_window = b_last.is_null() || win.iter().flatten().any(|v| Some(v.to_bits()) == bits(&b_last));
+                if !in_window {
+                    ctx.violation(Violation {
+                        entry: format!("window-only:{} (signed zero)", r1_name(f, true)),
+                        finding: None,
+                        size: w,
+                        case: json!({"family": name, "window": json_word(&win), "pre_history": [], "w": w, "mp": mp}),
+                        expected: "an element of the window, bit for bit".into(),
+                        got: b_last.show(),
+                    });
+                }
+                for pre in &pres {
+                    if pre.is_empty() {
+                        continue;
+                    }
+                    let mut x = decode(pre, &alpha_a);
+                    x.extend(win.iter().cloned());
+                    ctx.transitions += 1;
+                    let got = match run_v1::<f64, f64>(f, &x, w, Some(mp), Path::Ret) {
+                        Some(Outcome::Ok(c)) => c,
+                        _ => continue,
+                    };
+                    let g_last = got.last().unwrap();
+                    ctx.eval(name, bits(g_last).unwrap_or(7));
+                    if bits(g_last) != bits(&b_last) || g_last.is_null() != b_last.is_null() {
+                        ctx.violation(Violation {
+                            entry: format!("window-only:{} (signed zero)", r1_name(f, true)),
+                            finding: None,
+                            size: x.len() * 100 + w,
+                            case: json!({"family": name, "window": json_word(&win), "pre_history": json_word(&x[..pre.len()]), "w": w, "mp": mp}),
+                            expected: format!("last output as on the window alone, bit for bit: {}", b_last.show()),
+                            got: g_last.show(),
+                        });
+                    }
+                }
+            }
+        }
+        ctx.traces += 1;
+    });
+    total.merge(c);
+}
+
 /// (b) for the two-series family: window pair word W, pre-history pair word A
 fn window_only_pairs(run: &Run, total: &mut Ctx) {
     let name = "window-only-pairs";
@@ -777,6 +846,7 @@ fn main() {
             "window-only-long" => window_only_long(&run, &mut ctx),
             "window-only-backends" => window_only_backends(&run, &mut ctx),
             "driver-prefix" => driver_prefix(&run, &mut ctx),
+            "window-only-signed-zero" => window_only_signed_zero(&run, &mut ctx),
             _ => window_only(&run, &mut ctx),
         }
         std::process::exit(finish_replay(&run, &stored, ctx));
@@ -786,13 +856,14 @@ fn main() {
     total.merge(explore_tree(&pairs, run.threads));
     total.merge(explore_tree(&maps, run.threads));
     window_only(&run, &mut total);
+    window_only_signed_zero(&run, &mut total);
     window_only_pairs(&run, &mut total);
     prefix_long(&run, &mut total);
     window_only_long(&run, &mut total);
     window_only_backends(&run, &mut total);
     driver_prefix(&run, &mut total);
     let meta = Meta {
-        rule: "(a) prefix law on every edge parent->child of the history trees (single series, null-free plain family, pairs, positive-lag shift/vshift/vdiff/vpct_change with n in 0..=len+2 and every fill): f(child)[..len-1] == f(parent) bit for bit, for every window and min_periods; by induction every cut point. (b) window-only dependence: for every window word W (|W|<=w_max) and every pre-history A (|A|<=a_max, finite values and nulls), also for the two-series family over pair words: last output of f(A++W) equals that of f(W) (exact for min/max/arg/rank, 1e-9 otherwise). Non-trivial = word with a non-null element; each edge compares the parent's memoised outputs with the child's. Also the window-only relation on every input back end (window-only-backends) and the integer orders 1 and 2 of the fractional difference (DESIGN 5.15, 5.16). Round 9 (DESIGN 5.18): driver-prefix - the slice and index drivers themselves (rolling_custom, rolling_custom_iter, rolling_apply with a window-sum callback) satisfy the prefix law on every input back end including the option views of Vec / VecDeque / Array1.".into(),
+        rule: "(a) prefix law on every edge parent->child of the history trees (single series, null-free plain family, pairs, positive-lag shift/vshift/vdiff/vpct_change with n in 0..=len+2 and every fill): f(child)[..len-1] == f(parent) bit for bit, for every window and min_periods; by induction every cut point. (b) window-only dependence: for every window word W (|W|<=w_max) and every pre-history A (|A|<=a_max, finite values and nulls), also for the two-series family over pair words: last output of f(A++W) equals that of f(W) (exact for min/max/arg/rank, 1e-9 otherwise). Non-trivial = word with a non-null element; each edge compares the parent's memoised outputs with the child's. Also the window-only relation on every input back end (window-only-backends) and the integer orders 1 and 2 of the fractional difference (DESIGN 5.15, 5.16). Round 9 (DESIGN 5.18): driver-prefix - the slice and index drivers themselves (rolling_custom, rolling_custom_iter, rolling_apply with a window-sum callback) satisfy the prefix law on every input back end including the option views of Vec / VecDeque / Array1. Round 11 (DESIGN 5.20): window-only-signed-zero - ts_vmin / ts_vmax on windows over {null,-0.0,+0.0,1} after pre-histories over {+0.0,-0.0,-7.5,2,null}: the reported extreme is an element of the window, bit for bit the same whatever preceded it.".into(),
         bounds: json!({
             "prefix-valid": {"alphabet": json_word(&single.alpha), "L": single.max_len, "types": single.tys.iter().map(|t| t.name.clone()).collect::<Vec<_>>()},
             "prefix-plain": {"alphabet": json_word(&plain.alpha), "L": plain.max_len},
